@@ -57,6 +57,26 @@ def generate(seed, tier):
     method = weighted(w, [('nla', 5), ('chic', 4), ('qflag', 1)])
     genome = [[f'ctg{i}', w.randint(600, 9000)] for i in range(w.choice([1, 1, 2, 3]))]
     frags = tw.library(w, genome, method, n_target=w.randint(3, 60), dense=w.random() < 0.5, defects=w.random() < 0.6)
+    if method in ('nla', 'chic') and frags and w.random() < 0.35:
+        # long-insert pairs (legal, unusual): a molecule of its own - own site, one copy - whose read 2 lies far downstream, beyond the cache radius
+        # used by the ejecting api runs (1000): it completes while later molecules are still collecting copies
+        for _ in range(w.randint(1, 3)):
+            t = dict(w.choice(frags))
+            clen = genome[t['ctg']][1]
+            if clen < 900:
+                continue
+            for _try in range(20):
+                L = w.randint(520, min(2400, clen - 200))
+                rev = w.random() < 0.5
+                site = w.randint(50, clen - L - 60) if not rev else w.randint(L + 60, clen - 50)
+                if all(abs(o['site'] - site) > 60 for o in frags if o['ctg'] == t['ctg']):
+                    t.update({'n': 1000 + len(frags) + 500, 'site': site, 'L': L, 'rev': rev, 'umi': lib.umi_pool(w, 1, len(t['umi']))[0], 'defect': None, 'clip': 0,
+                              'mol': 50000 + len(frags), 'extra': None, 'long_insert': True})
+                    t.pop('dup', None)
+                    g = dict(t)
+                    if all(v is None or 0 <= v <= clen for v in lib.full_coords(g)):
+                        frags.append(g)
+                    break
     preflag = w.random() < 0.5
     if preflag:
         for f in frags:
